@@ -995,6 +995,10 @@ func ExecQPlan(p *QPlan, trace bool) *core.Result {
 					t.Sleep(time.Duration(op.D))
 					advanced = true
 				case qBurst:
+					if op.G > 300 {
+						h.Rec(evQOp, int64(oi), -4, 0, 0, "") // a long history
+					}
+					op.G = core.LongCap(op.G, 600)
 					if op.D == 1 {
 						// the same compound group (SYSCALL, paths, hex-encoded arguments, a unix socket
 						// address) coalesced over and over: what a long-running process has behind it
@@ -1122,6 +1126,10 @@ func ExecQPlan(p *QPlan, trace bool) *core.Result {
 			}
 			if e.B == -3 {
 				res.Probes[qpBurst]++
+				continue
+			}
+			if e.B == -4 {
+				res.Long = true
 				continue
 			}
 			nops++
